@@ -49,19 +49,53 @@ func resolveSystems(repo string) *Systems {
 	}
 	s := &Systems{}
 	for i, n := range names {
+		if n == "_" {
+			continue // blank constants of an iota block are not identifiers of anything
+		}
 		sf := SysF{Name: n, Value: int(vals[i])}
-		// the defining expression: System(<pkg>.<Const>)
+		// the defining expression, if it is (conversions and parentheses around) a
+		// constant of another package: System(<pkg>.<Const>), System(byte(<pkg>.<Const>)), ...
 		if e := fw.FindVar(p, n); e != nil {
-			if call, ok := e.(*ast.CallExpr); ok && len(call.Args) == 1 {
-				if sel, ok := call.Args[0].(*ast.SelectorExpr); ok {
-					if c, ok := p.TypesInfo.Uses[sel.Sel].(*types.Const); ok && c.Pkg() != nil {
-						sf.Src = splitU(sel.Sel.Name)
-						sf.SrcPkg = c.Pkg().Path()
-					}
-				}
+			if c, id := foreignConst(p, e); c != nil {
+				sf.Src = splitU(id.Name)
+				sf.SrcPkg = c.Pkg().Path()
 			}
 		}
 		s.Consts = append(s.Consts, sf)
 	}
+	if len(s.Consts) == 0 {
+		return &Systems{Err: "util/resolve declares no named System constants"}
+	}
 	return s
+}
+
+// foreignConst strips parentheses and type conversions from e and returns the
+// constant of another package that remains (object identity via go/types, so
+// the import may be renamed or dot-imported), or nil.
+func foreignConst(p *packages.Package, e ast.Expr) (*types.Const, *ast.Ident) {
+	for {
+		e = ast.Unparen(e)
+		call, ok := e.(*ast.CallExpr)
+		if !ok || len(call.Args) != 1 {
+			break
+		}
+		if tv, ok := p.TypesInfo.Types[call.Fun]; !ok || !tv.IsType() {
+			return nil, nil
+		}
+		e = call.Args[0]
+	}
+	var id *ast.Ident
+	switch x := e.(type) {
+	case *ast.SelectorExpr:
+		id = x.Sel
+	case *ast.Ident:
+		id = x
+	default:
+		return nil, nil
+	}
+	c, ok := p.TypesInfo.Uses[id].(*types.Const)
+	if !ok || c.Pkg() == nil || c.Pkg() == p.Types {
+		return nil, nil
+	}
+	return c, id
 }
